@@ -155,3 +155,123 @@ class Table:
         except Raised as r:
             return f"building or reading the graph raises {r.exc}"
         return None
+
+
+# --------------------------------------------------------------------------------------------------------------------------------------------
+# C06-R8: small packages, the loader's own post-load pipeline (expand_exports, expand_wildcards, resolve_aliases twice)
+
+L = "_griffe.loader.GriffeLoader"
+
+
+def packages(mods: str) -> Iterator[tuple]:
+    """Per module: (definition of x, star import).  x: None | "attr" | ("imp", module) | ("imp", "ext");  star: None | module."""
+    per_module = []
+    for m in mods:
+        xs: list = [None, "attr", ("imp", "ext")] + [("imp", o) for o in mods if o != m]  # the visitor records no alias for `from <itself> import x`
+        stars: list = [None, *mods]
+        per_module.append([(x, s) for x in xs for s in stars])
+    yield from itertools.product(*per_module)
+
+
+def fmt_pkg(mods: str, g: tuple) -> str:
+    out = []
+    for m, (x, star) in zip(mods, g):
+        lines = []
+        if x == "attr":
+            lines.append("x = 1")
+        elif x is not None:
+            lines.append(f"from {'ext' if x[1] == 'ext' else 'pkg.' + x[1]} import x")
+        if star:
+            lines.append(f"from pkg.{star} import *")
+        out.append(f"pkg/{m}.py: " + ("; ".join(lines) or "(empty)"))
+    return " | ".join(out)
+
+
+class PackageTable:
+    def __init__(self, prog: Program) -> None:
+        from pathlib import PurePosixPath
+
+        self.PP = PurePosixPath
+        self.prog = prog
+        self.it = Interp(prog, max_depth=120, max_steps=600_000)
+        self.cc = prog.cls("_griffe.collections.ModulesCollection")
+        self.fns = {n: prog.function(f"{L}.{n}") for n in ("expand_exports", "expand_wildcards", "resolve_aliases")}
+
+    def new(self, cls: str, *a: object, **k: object) -> Obj:
+        return self.it._construct(self.prog.cls(f"{M}.{cls}"), list(a), dict(k))
+
+    def setm(self, o: Obj, n: str, v: Obj) -> None:
+        self.it.call(self.prog.lookup_method(o.cls, "set_member")[0], o, n, v)
+
+    def build(self, mods: str, g: tuple, exported: bool) -> tuple[Obj, Obj, dict[str, Obj]]:
+        coll = self.it._construct(self.cc, [], {})
+        pkg = self.new("Module", "pkg", filepath=self.PP("/s/pkg/__init__.py"))
+        self.setm(coll, "pkg", pkg)
+        ms = {m: self.new("Module", m, filepath=self.PP(f"/s/pkg/{m}.py")) for m in mods}
+        for m, o in ms.items():
+            self.setm(pkg, m, o)
+        for m, (x, star) in zip(mods, g):
+            o = ms[m]
+            if x == "attr":
+                self.setm(o, "x", self.new("Attribute", "x", lineno=1, endlineno=1))
+            elif x is not None:
+                tp = "ext.x" if x[1] == "ext" else f"pkg.{x[1]}.x"
+                self.setm(o, "x", self.new("Alias", "x", tp, lineno=1, endlineno=1))
+                o.attrs["imports"]["x"] = tp
+            if star:
+                self.setm(o, f"pkg/{star}/*", self.new("Alias", f"pkg/{star}/*", f"pkg.{star}", lineno=2, endlineno=2))
+                o.attrs["imports"][f"pkg/{star}/*"] = f"pkg.{star}"
+            if exported:
+                o.attrs["exports"] = ["x"]
+        return coll, pkg, ms
+
+    def aliases(self, ms: dict[str, Obj]) -> list[tuple[str, Obj]]:
+        return [(f"pkg.{m}.{n}", v) for m, o in ms.items() for n, v in o.attrs["members"].items() if v.cls is not None and v.cls.name == "Alias"]
+
+    def run(self, mods: str, g: tuple, implicit: bool) -> str | None:
+        from sa.absint import Native
+
+        it = self.it
+        it.steps = 0
+        stage = "building the package"
+        try:
+            coll, pkg, ms = self.build(mods, g, exported=not implicit)
+            keep = [v for _p, v in self.aliases(ms)]  # the aliases the visitor would create (unresolved); expansion adds linked ones later
+            imported = {id(v) for v in keep}  # (the list keeps them alive, so an id is never reused by a later object)
+            loader = Obj(self.prog.cls(L), {"modules_collection": coll, "extensions": Obj(None, {"call": Native(lambda *_a, **_k: None)})}, label="loader")
+            stage = "expand_exports"
+            it.call(self.fns["expand_exports"], loader, pkg)
+            stage = "expand_wildcards"
+            it.call(self.fns["expand_wildcards"], loader, pkg, external=False)
+            stage = "resolve_aliases"
+            un1, _n = it.call(self.fns["resolve_aliases"], loader, implicit=implicit, external=False)
+            state1 = {p: id(a.attrs.get("_target")) for p, a in self.aliases(ms)}
+            stage = "resolve_aliases (second time)"
+            un2, _n = it.call(self.fns["resolve_aliases"], loader, implicit=implicit, external=False)
+            state2 = {p: id(a.attrs.get("_target")) for p, a in self.aliases(ms)}
+            if set(un1) != set(un2) or state1 != state2:
+                return f"resolving a second time is not a no-op: unresolved {sorted(un1)} then {sorted(un2)}"
+            stage = "reading the aliases"
+            for path, a in self.aliases(ms):
+                if a.attrs["name"].endswith("/*"):
+                    return f"the wildcard placeholder {path} is still a member after expansion"
+                outcome = {}
+                for attr in ("target", "final_target", "resolved", "kind", "is_public"):
+                    try:
+                        v = it.getattr(a, attr)
+                        outcome[attr] = "ok"
+                        if attr == "final_target" and isinstance(v, Obj) and v.cls is not None and v.cls.name == "Alias":
+                            return f"{path}.final_target is an alias"
+                    except Raised as r:
+                        outcome[attr] = r.exc
+                        if r.exc not in AE or attr in ("resolved", "kind"):
+                            return f"{path}.{attr} raises {r.exc}"
+                if id(a) in imported and a.attrs.get("_target") is not None and outcome["final_target"] != "ok":
+                    return f"{path} is resolved (first link stored) yet its final target raises {outcome['final_target']}: the chain is partially resolved"
+        except StepLimit:
+            return f"{stage} does not terminate within the step budget"
+        except DepthLimit:
+            return f"{stage} nests calls deeper than {it.max_depth} frames (unbounded recursion)"
+        except Raised as r:
+            return f"{stage} raises {r.exc}"
+        return None
